@@ -5,14 +5,20 @@ _MAIN = {
     "quick": T(16, 60), "thorough": T(16, 600),
     "env": {"VERIF_C05_SCRATCH": "/dev/shm"},
 }
+import os as _os
+_REPO = _os.environ.get("VERIF_REPO", "/repo")
+_VERIF = _os.path.dirname(_os.path.dirname(_os.path.dirname(_os.path.abspath(__file__)))) if "__file__" in globals() else "/verif"
 # part 1: back-pressure (writer queue nearly full) under the controlled scheduler, same scenarios as C07 at a smaller bound
 _BP = {
     "pkg": ".", "hdir": "dastard", "harness": DASTARD_COMMON + ["zz_verif_files_test.go", "zz_verif_c07_test.go"], "test": "TestVerifC05BP",
     "engines": ["vexp", "vhook"], "runtime_patch": True, "gomaxprocs": 1,
-    "instrument": {"files": {"asyncbufio/asyncbufio.go": {}}},
+    # as C07: opt-in points before the bufio calls and at atomic operations (switched on in the tick scenarios), ticker seam
+    "instrument": {"files": {"asyncbufio/asyncbufio.go": {"call_points": ["*.Write", "*.Flush"], "atomics": True, "opt_guard": "VerifStallPoints"}}},
     "textpatch": [{"file": "ljh/ljh.go", "old": "const WRITECHANCAPACITY = 1000", "new": "var WRITECHANCAPACITY = 1000"},
-                  {"file": "off/off.go", "old": "const WRITECHANCAPACITY = 1000", "new": "var WRITECHANCAPACITY = 1000"}],
-    "quick": T(16, 30), "thorough": T(16, 300),
+                  {"file": "off/off.go", "old": "const WRITECHANCAPACITY = 1000", "new": "var WRITECHANCAPACITY = 1000"},
+                  {"file": "asyncbufio/asyncbufio.go", "old": "time.NewTicker(aw.flushInterval)", "new": "VerifNewTicker(aw.flushInterval)"}],
+    "_extra_overlay": {_os.path.join(_REPO, "asyncbufio", "zz_verif_seam.go"): _os.path.join(_VERIF, "harness", "asyncbufio", "zz_verif_seam.go")},
+    "quick": T(16, 60), "thorough": T(16, 300),
 }
 ENTRY = {
     "C05": dict(_MAIN, **{
@@ -34,7 +40,8 @@ ENTRY = {
                         "LJH time stamps = floor(UnixNano/1000); time stamps stay inside 1971..2200",
                         "projector/basis matrices are compact (as produced by the RPC path's UnmarshalBinary), not strided views",
                         "names are newline-free; requests issued directly on the source (RPC queueing is C11); writer queue overflow is explored in the back-pressure part at queue depths 2..9 "
-                        "(the constant 1000 made settable), with the writers driven directly",
+                        "(the constant 1000 made settable), with the writers driven directly; there a small family also has a clock thread offer periodic-flush ticks at arbitrary points "
+                        "(ticker seam, stall points before the bufio calls, atomic operations as scheduling points: see C07)",
                         "LJH 3 and OFF layouts as fixed in the property brief (no format document in the repository)"],
     }),
 }
